@@ -262,4 +262,85 @@ func runC35(c *eng.Ctx) {
 		f.Has("R5", next, 1)
 		f.PassesBetween("R5", eng.CondTest("hasExemplar"), zero, next)
 	}
+	// ---- R6 the streaming decoder re-uses one Metric: every field of every sub-message is cleared between metrics ----
+	{
+		CL := "prompb/io/prometheus/client:"
+		rm := c.Fn(CL + "MetricStreamingDecoder.resetMetric")
+		metric := p.Named(CL + "Metric")
+		st := metric.Underlying().(*types.Struct)
+		declared := map[string]string{
+			"Metric.Label": "labels are decoded lazily into the decoder's own `labels` slice, which is truncated",
+		}
+		subs := 0
+		for i := 0; i < st.NumFields(); i++ {
+			fld := st.Field(i)
+			if strings.HasPrefix(fld.Name(), "XXX_") {
+				continue
+			}
+			pt, isPtr := fld.Type().(*types.Pointer)
+			if !isPtr {
+				if _, ok := declared["Metric."+fld.Name()]; ok {
+					continue
+				}
+				rm.Has("R6", p.Store(CL+"Metric."+fld.Name()).Named("reset of Metric."+fld.Name()), 1)
+				continue
+			}
+			sub, ok := pt.Elem().(*types.Named)
+			if !ok {
+				continue
+			}
+			subs++
+			var missing []string
+			for _, sf := range eng.StructFields(sub) {
+				if len(rm.Find(p.Store(CL+sub.Obj().Name()+"."+sf))) == 0 {
+					missing = append(missing, sf)
+				}
+			}
+			c.Check("R6", rm.Where(), "resetMetric clears every field of the re-used "+sub.Obj().Name()+" message", len(missing) == 0, p.Pos(rm.Body.Pos()), "not cleared (a metric that omits the field inherits the previous metric's value): "+strings.Join(missing, ", "))
+		}
+		c.Check("R6", rm.Where(), "Metric has five sub-messages", subs == 5, p.Pos(rm.Body.Pos()), fmt.Sprint(subs))
+		// ---- R7 the protobuf parser's per-metric cursors restart with every metric ----
+		nx := c.Fn(T + "ProtobufParser.Next")
+		for _, sw := range nx.EnumSwitches(T + "Entry") {
+			for _, arm := range []string{"EntrySeries", "EntryHistogram"} {
+				cl := sw.Clauses[arm]
+				if cl == nil {
+					continue
+				}
+				body := ""
+				for _, s := range cl.Body {
+					body += nodeText(s) + " ; "
+				}
+				i1 := strings.Index(body, "p.exemplarPos = 0")
+				i2 := strings.Index(body, "p.dec.NextMetric()")
+				c.Check("R7", nx.Where(), "the "+arm+" arm restarts the exemplar cursor before it moves to the next metric", i1 >= 0 && i2 >= 0 && i1 < i2, p.Pos(cl.Pos()), "")
+			}
+		}
+			// the decision "this histogram is handled as a classic one" is one predicate, everywhere
+		nSites := 0
+		for _, fn := range []string{"ProtobufParser.Next", "ProtobufParser.Histogram"} {
+			f := c.Fn(T + fn)
+			ast.Inspect(f.Body, func(n ast.Node) bool {
+				call, ok := n.(*ast.CallExpr)
+				if !ok || nodeText(call.Fun) != "isNativeHistogram" {
+					return true
+				}
+				nSites++
+				// the enclosing expression must be `p.ignoreNativeHistograms || !isNativeHistogram(…)`
+				okSite := false
+				ast.Inspect(f.Body, func(m ast.Node) bool {
+					be, isB := m.(*ast.BinaryExpr)
+					if isB && be.Op.String() == "||" && nodeText(be.X) == "p.ignoreNativeHistograms" {
+						if ue, isU := ast.Unparen(be.Y).(*ast.UnaryExpr); isU && ue.Op.String() == "!" && ue.X == ast.Expr(call) {
+							okSite = true
+						}
+					}
+					return true
+				})
+				c.Check("R7", f.Where(), "a histogram is treated as classic exactly under `p.ignoreNativeHistograms || !isNativeHistogram(…)` (same predicate at every site)", okSite, p.Pos(call.Pos()), nodeText(call))
+				return true
+			})
+		}
+		c.Check("R7", T+"ProtobufParser", "sites deciding classic vs native (4 confirmed by reading)", nSites >= 4, "", fmt.Sprint(nSites))
+}
 }
